@@ -7,6 +7,9 @@
 //	VARS: global variables of these names are declared above the tasks (`a := "."`): a variable that shares
 //	its name with a task is no business of the task graph.
 //
+//	FDEPS a:x,y: task a also declares FILE dependencies "x", "y" (created, empty, in the project directory), first in
+//	its list when REP is even, last when odd: a file dependency, however it is spelled, is no business of the task graph.
+//
 // obs:   OUTCOME ok|duplicate|no-such-task|no-such-dependency|cycle|other|parse-error|panic|hang ; ORDER a b c ; RESULTS a b c
 //
 //	ORDER = task name of every shell.Runner call in call order, RESULTS = task names of the returned results.
@@ -91,6 +94,21 @@ func showList(l []string) string {
 	return strings.Join(l, " ")
 }
 
+// fileDeps: the FDEPS section
+func fileDeps(c string) (map[string][]string, bool) {
+	sec := sections(c)
+	out := map[string][]string{}
+	for _, w := range listOf(sec["FDEPS"]) {
+		name, fs, _ := strings.Cut(w, ":")
+		for _, x := range strings.Split(fs, ",") {
+			if x != "" {
+				out[name] = append(out[name], x)
+			}
+		}
+	}
+	return out, sec["REP"] == "" || strings.HasSuffix(sec["REP"], "0") || strings.HasSuffix(sec["REP"], "2") || strings.HasSuffix(sec["REP"], "4") || strings.HasSuffix(sec["REP"], "6") || strings.HasSuffix(sec["REP"], "8")
+}
+
 func parseCase(c string) (defs []def, req []string, fail map[string]bool, vars []string, ok bool) {
 	sec := sections(c)
 	t, ok1 := sec["TASKS"]
@@ -119,7 +137,7 @@ func parseCase(c string) (defs []def, req []string, fail map[string]bool, vars [
 	return defs, listOf(r), fail, listOf(sec["VARS"]), true
 }
 
-func spokfileText(defs []def, vars []string) string {
+func spokfileText(defs []def, vars []string, fdeps map[string][]string, filesFirst bool) string {
 	var b strings.Builder
 	for _, v := range vars {
 		fmt.Fprintf(&b, "%s := \".\"\n", v)
@@ -128,7 +146,16 @@ func spokfileText(defs []def, vars []string) string {
 		b.WriteString("\n")
 	}
 	for _, d := range defs {
-		fmt.Fprintf(&b, "task %s(%s) {\n    echo %s\n}\n\n", d.name, strings.Join(d.deps, ", "), d.name)
+		var all []string
+		for _, f := range fdeps[d.name] {
+			all = append(all, `"`+f+`"`)
+		}
+		if filesFirst {
+			all = append(all, d.deps...)
+		} else {
+			all = append(append([]string{}, d.deps...), all...)
+		}
+		fmt.Fprintf(&b, "task %s(%s) {\n    echo %s\n}\n\n", d.name, strings.Join(all, ", "), d.name)
 	}
 	return b.String()
 }
@@ -176,8 +203,9 @@ func graphWork(c string) string {
 	if !ok {
 		return "BAD-CASE"
 	}
+	fdeps, filesFirst := fileDeps(c)
 	res, _ := sup.WithWatchdog(20*time.Second, func() string {
-		tree, err := parser.New(spokfileText(defs, vars)).Parse()
+		tree, err := parser.New(spokfileText(defs, vars, fdeps, filesFirst)).Parse()
 		if err != nil {
 			return "OUTCOME parse-error ; ORDER - ; RESULTS -"
 		}
@@ -186,6 +214,11 @@ func graphWork(c string) string {
 			return "OUTCOME harness-tempdir ; ORDER - ; RESULTS -"
 		}
 		defer os.RemoveAll(dir)
+		for _, fs := range fdeps {
+			for _, f := range fs {
+				_ = os.WriteFile(dir+"/"+f, nil, 0o644)
+			}
+		}
 		sf, err := file.New(tree, dir, nolog{})
 		if err != nil {
 			return fmt.Sprintf("OUTCOME %s ; ORDER - ; RESULTS -", classOf(err, true))
@@ -216,12 +249,17 @@ type tcase struct {
 	req  []string
 	fail []string
 	vars []string
+	fdep []string // "task:file,file"
 }
 
 func emit(w *bufio.Writer, t tcase, rep int) {
 	var ds []string
 	for _, d := range t.defs {
 		ds = append(ds, d.name+":"+strings.Join(d.deps, ","))
+	}
+	if len(t.fdep) > 0 {
+		fmt.Fprintf(w, "TASKS %s ; REQ %s ; FAIL %s ; REP %d ; VARS %s ; FDEPS %s\n", showList(ds), showList(t.req), showList(t.fail), rep, showList(t.vars), showList(t.fdep))
+		return
 	}
 	if len(t.vars) > 0 {
 		fmt.Fprintf(w, "TASKS %s ; REQ %s ; FAIL %s ; REP %d ; VARS %s\n", showList(ds), showList(t.req), showList(t.fail), rep, showList(t.vars))
@@ -481,6 +519,8 @@ func graphGen(w *bufio.Writer, a map[string]string) {
 		genRandom(w, rng, 600, 4, 3)
 		genWithVars(w, 3)
 		genPrefixes(w, 3)
+		genFileDeps(w, 3)
+		genCollide(w, 3)
 		return
 	}
 	genBlock(w, rng, block{n: 1, maxEdges: 1, reqLen: 3, reps: 3, failsPerReq: 2, variants: true})
@@ -496,6 +536,8 @@ func graphGen(w *bufio.Writer, a map[string]string) {
 	genRandom(w, rng, 5000, 4, 20)
 	genWithVars(w, 3)
 	genPrefixes(w, 3)
+	genFileDeps(w, 3)
+	genCollide(w, 4)
 }
 
 // genPrefixes: tasks with longer names ("aa", "bb", …), requested by a proper prefix ("a") or by a longer spelling ("aaa"):
@@ -531,6 +573,49 @@ func genWithVars(w *bufio.Writer, n int) {
 			defs := graphDefs(k, mask, 0)
 			for i := 0; i < k; i++ {
 				emit(w, tcase{defs: defs, req: []string{taskNames[i]}, vars: append(append([]string{}, taskNames[:k]...), "VAR")}, 0)
+			}
+		}
+	}
+}
+
+// genFileDeps: every graph over ≤ n tasks where every task also has FILE dependencies spelled like the tasks (its own name
+// included) — before the task dependencies (even rep) and after them (odd rep)
+func genFileDeps(w *bufio.Writer, n int) {
+	for k := 1; k <= n; k++ {
+		for mask := uint64(0); mask < 1<<uint(k*k); mask++ {
+			defs := graphDefs(k, mask, 0)
+			var fd []string
+			for i := 0; i < k; i++ {
+				fd = append(fd, taskNames[i]+":"+strings.Join(taskNames[:k], ","))
+			}
+			for i := 0; i < k; i++ {
+				for rep := 0; rep < 2; rep++ {
+					emit(w, tcase{defs: defs, req: []string{taskNames[i]}, fdep: fd}, rep)
+				}
+			}
+			emit(w, tcase{defs: defs, req: append([]string{}, taskNames[:k]...), fdep: fd[:1]}, 0)
+		}
+	}
+}
+
+// genCollide: graphs over task names whose concatenations collide ("a"+"bc" = "ab"+"c", "x"+"yx" = "xy"+"x"): every
+// graph with ≤ maxEdges edges over {a, ab, bc, c}, every single request and all four at once, three runs each
+func genCollide(w *bufio.Writer, maxEdges int) {
+	for _, alt := range [][]string{{"a", "ab", "bc", "c"}, {"x", "xy", "yx", "xx"}} {
+		for mask := uint64(0); mask < 1<<16; mask++ {
+			if e := bits.OnesCount64(mask); e == 0 || e > maxEdges || mask&selfLoops(4) != 0 {
+				continue
+			}
+			defs := graphDefs(4, mask, 0)
+			for i := range defs {
+				defs[i].name = alt[i]
+				for j, d := range defs[i].deps {
+					defs[i].deps[j] = alt[strings.Index("abcd", d)]
+				}
+			}
+			for rep := 0; rep < 3; rep++ {
+				emit(w, tcase{defs: defs, req: append([]string{}, alt...)}, rep)
+				emit(w, tcase{defs: defs, req: []string{alt[3], alt[2], alt[1], alt[0]}}, rep)
 			}
 		}
 	}
